@@ -159,6 +159,11 @@ def run_single(ctx, rng, N):
             import xarray as xr
             da = da * xr.DataArray(10.0 ** rng.integers(-6, 8, size=da.sizes["lon"]), dims=("lon",), coords={"lon": da.lon})
             kw = dict(standardize=True)
+        if name in ("EOF", "ComplexEOF", "SparsePCA") and (i // len(names)) % 4 == 1 and not antisym:
+            # one entirely missing sample: under a permutation of the samples its NaN scores and everybody else's scores stay at their own labels
+            da = da.copy()
+            da.values[int(rng.integers(0, n))] = np.nan
+            ctx.dist["c07:single:entirely-missing-sample"] += 1
         replay = dict(kind="single", cls=name, data=np.asarray(da.values), shape=da.shape, kw=kw)
         try:
             m0 = sp.make(k, **kw)
